@@ -29,6 +29,23 @@ def boundary_expr(rng):
     A = rng.choice([100, 120, 150, 180, 190, 198, 199, 200, 201])
     Pd = rng.choice([2, 10, 50, 90, 99, 100, 101, 150, 198, 199])
     R = rng.randrange(Pd)
+    if rng.random() < 0.4:
+        # offset + period EXACTLY at the window edge (the analysis is used iff offset + period < 200), every comparison
+        # operator, the constant on either side: an offset that is one too small, or `<` relaxed to `<=`, makes a claim
+        # about a form index first produced at n = 200 or 201
+        Pd = rng.choice([1, 1, 2, 3, 10, 50, 100, 150])
+        A = max(0, 200 - Pd + rng.choice([-2, -1, 0, 0, 1, 2]))
+        R = rng.randrange(Pd)
+        op = rng.choice(['<', '<=', '>', '>=', '==', '!='])
+        cmp_ = f'{A} {op} n' if rng.random() < 0.5 else f'n {op} {A}'
+        k = rng.randrange(4)
+        if Pd == 1 or k == 0:
+            return cmp_
+        if k == 1:
+            return f'{cmp_} && n%{Pd} == {R}'
+        if k == 2:
+            return f'({cmp_}) ? (n%{Pd} == {R} ? 2 : 1) : 0'
+        return f'n%{Pd} == {R} && {cmp_}'
     shape = rng.randrange(6)
     if shape == 0:
         return f'(n >= {A} && n%{Pd} == {R}) ? 1 : 0'
